@@ -9,7 +9,10 @@ package main
 // fragmentation of large messages and control frames are outside the model. (Named zzz... so
 // that its init runs after zzhttp.go, whose Encode / NewDecoder / Decode intercepts it wraps.)
 
-import "go/types"
+import (
+	"go/types"
+	"math/big"
+)
 
 type gwWriter struct {
 	s       *StreamObj
@@ -92,6 +95,18 @@ func init() {
 		w.open = false
 		return IfaceVal{}
 	})
+	// Buffered / Available / Size of the writer: what is pending is some number of bytes between 1 and the
+	// buffer size; nothing pending = 0 (an oversized write went through as a non-final fragment)
+	regV("(*"+wu+"Writer).Buffered", func(m *Machine, g *Goroutine, a []Value) Value {
+		w := m.nativeOf(a[0], "Writer.Buffered").(*gwWriter)
+		if len(w.pending) == 0 {
+			return mkInt(0)
+		}
+		n := mkVar(m.uniqueName("writer-buffered"), SInt, big.NewInt(1), big.NewInt(4096))
+		m.declare(n)
+		return n
+	})
+	regV("(*"+wu+"Writer).Size", func(m *Machine, g *Goroutine, a []Value) Value { return mkInt(4096) })
 	reg("(*"+wu+"Reader).NextFrame", func(m *Machine, g *Goroutine, c *callCtx) (Value, stepStatus) {
 		r := m.nativeOf(c.args[0], "Reader.NextFrame").(*gwReader)
 		hdr := m.zero(c.fn.Signature.Results().At(0).Type())
